@@ -183,8 +183,13 @@ func (g *Gen) scalarBytes() (op string, b []byte) {
 		}
 		return "Scalar.SetUniformBytes", b
 	default: // powers of two and neighbours (NAF window edges)
-		v := new(big.Int).Lsh(big.NewInt(1), uint(rng.Intn(252)))
+		v := new(big.Int).Lsh(big.NewInt(1), uint(rng.Intn(253))) // up to 2^252 (< l)
 		v.Add(v, big.NewInt(int64(rng.Intn(3)-1)))
+		if rng.Bool(0.2) {
+			// 2^252 + something below l - 2^252: bit 252 set together with low bits
+			v.Lsh(big.NewInt(1), 252)
+			v.Add(v, alpha.FromLE(rng.Bytes(1+rng.Intn(15))))
+		}
 		if v.Sign() < 0 {
 			v.SetInt64(0)
 		}
